@@ -617,6 +617,8 @@ def parser_case(draw, **kw):
                 opts.append(op)
         elif op == "add_missing" and kind == "dataframe" and plain:
             c = draw(st.sampled_from(plain))
+            if c.get("parsers") or any(p.get("column") == c["name"] for p in (spec.get("parsers") or [])):
+                continue  # (the harness' numeric parsers are not total on the null-filled column that would be added)
             tc = tcs[c["name"]]
             nn = [v for v in tc["cells"] if v is not None]
             r = draw(st.integers(0, 3))
